@@ -123,6 +123,22 @@ func zzC13_sponge_split(algo, l1, l2 int) {
 	verifReach("sponge_split")
 }
 
+// zzC13_sponge_misaligned: the digest does not depend on where the caller's bytes sit in memory: the input is a
+// sub-slice starting `off` bytes into its allocation (the whole-block fast path reads caller memory directly)
+func zzC13_sponge_misaligned(algo, off, l1, l2 int) {
+	h, rate, ds, outLen := spongeAlgo(algo)
+	buf := nondetBytes(off + l1 + l2)
+	data := buf[off:]
+	msg := append([]byte{}, data...)
+	want := refSponge(rate, ds, outLen, msg)
+	assertEq(h.ComputeHash(data), want, "ComputeHash of a sub-slice at any offset = FIPS 202 digest")
+	h.Reset()
+	_, _ = h.Write(data[:l1])
+	_, _ = h.Write(data[l1:])
+	assertEq(h.SumHash(), want, "Write;Write;SumHash of sub-slices at any offset = FIPS 202 digest")
+	verifReach("sponge_misaligned")
+}
+
 // zzC13_sponge_api: ComputeHash(x) is independent of what was written before (l0 bytes, optionally a
 // SumHash), Reset + split writes + SumHash gives the same digest, the one-shot helper agrees.
 func zzC13_sponge_api(algo, l0, lx, split int, sumFirst bool) {
